@@ -14,17 +14,24 @@
   function (an arbitrary function of the two arguments it is handed: token lists when a tokenizer is given, the raw
   cells otherwise), `cpu` the machine's cpu count.  The result is `.ok frame` or an exception.
 
-  HOW THE THEOREMS SPEAK.  `srcRow f key k` is the row of table `f` whose key cell is `k`; `pairSpec` says what
-  happens to a candidate row given its two source rows; `rowSpec` = look the two source rows up, then `pairSpec`.
+  HOW THE THEOREMS SPEAK.  `srcRow f key k` is the row of table `f` whose key cell is Python-equal to `k`
+  (`Cell.pyEq`: the dictionaries `_apply_matcher_split` builds from the tables are probed with the CANDSET's key
+  values, and a Python dict finds `1` under the probe `1.0` or `True`; a candset key column is `float64` as soon as it
+  passed through a NaN, a CSV file or a merge); `pairSpec` says what happens to a candidate row given its two source
+  rows when its key cells are the tables' own, `pairSpecK` when they are merely Python-equal to them (the only
+  difference: without output attributes the output row carries the CANDSET's key values — `pairSpecK_eq_map`);
+  `rowSpec` = look the two source rows up, then `pairSpecK`.
   `keeps_exactly`: the result's rows are `candset.rows.filterMap rowSpec` — same order, nothing else.
+  Companion file `C05_keys.lean`: a candidate row whose keys are Python-equal (not identical) to table keys is
+  processed exactly like one with identical keys.
 
   HYPOTHESES / SCOPE.
   * `validateMatcher a t = .ok (c, l, r)`: the validation block at the top of apply_matcher accepts — equivalently
     (`C15.apply_matcher_accepts_iff`) the documented preconditions `MatcherValid` hold: three DataFrames, all named
     attributes exist, tokenizer (if given) is a Tokenizer, comp_op is one of the six operators, both keys are
     duplicate-free without missing values.
-  * every candidate key occurs in its table (otherwise Python raises KeyError, and so does the model:
-    `applyMatcherSplit_error`);
+  * every candidate key occurs in its table up to Python equality (`PyMem`: some key of the table is `==` to it;
+    otherwise Python raises KeyError, and so does the model: `applyMatcherSplit_error`);
   * the candset has fewer than 2⁴⁰ rows (precision limit of `split_table`'s binary64 chunk boundaries; discharges the
     "chunks form a partition" hypothesis via `chunksFor_flatten`, for EVERY n_jobs and cpu count).
   * when a tokenizer is given, both match columns hold only strings and missing values (`hstr`, `StrColumn` of
@@ -48,9 +55,10 @@ open SSJ SSJ.Props
 
 /-! ## Specification vocabulary -/
 
-/-- the source row of table `f` whose key cell is `k` (validated keys are unique, so "the" row: `srcRow_iff`) -/
+/-- the source row of table `f` whose key cell is Python-equal to `k` — what the lookup `table_dict[k]` finds
+    (validated keys are pairwise Python-different, so "the" row: `srcRow_iff`) -/
 def srcRow (f : Frame) (key : String) (k : Cell) : Option Row :=
-  f.rows.find? (fun s => keyOf f key s == k)
+  f.rows.find? (fun s => (keyOf f key s).pyEq k)
 
 /-- the tokenization function apply_matcher uses: the given tokenizer in ITS CURRENT mode, or none -/
 def tokOf (t : Option TokObj) (toks : TokFn) : Option (String → List Tok) :=
@@ -91,41 +99,122 @@ def pairSpec (a : MatcherArgs) (tok : Option (String → List Tok)) (sim : SimAr
     let s := simValue tok sim lv rv
     if compFn a.compOp s a.threshold then some (outRow a l r id ls rs (scoreCell s)) else none
 
-/-- the candidate row `cr`: look up the two source rows by the candset's key columns, then `pairSpec`;
-    its `_id` is cell 0 -/
+/-- are output attributes requested (after the key attribute and duplicates were removed from the lists)?
+    `has_output_attributes` of `_apply_matcher_split` -/
+def hasOutAttrs (a : MatcherArgs) : Bool :=
+  (removeRedundantAttrs a.lOut a.lKey).isSome || (removeRedundantAttrs a.rOut a.rKey).isSome
+
+/-- `outRow` for a candidate row whose key cells are `lk`, `rk`: WITHOUT output attributes `_apply_matcher_split`
+    emits `[candset_row[0], l_id, r_id]` — the CANDSET's key values (`1.0` stays `1.0`); WITH output attributes
+    `get_output_row_from_tables(l_row, r_row, …)` — the TABLES' key values -/
+def outRowK (a : MatcherArgs) (l r : Frame) (id lk rk : Cell) (ls rs : Row) (score : Cell) : Row :=
+  withScore a.outSimScore
+    (id :: (if hasOutAttrs a then keyOf l a.lKey ls else lk) :: (if hasOutAttrs a then keyOf r a.rKey rs else rk) ::
+      ((outAttrs a.lOut a.lKey).map (fun x => valOf l x ls) ++ (outAttrs a.rOut a.rKey).map (fun x => valOf r x rs)))
+    score
+
+/-- `pairSpec` for a candidate row whose key cells are `lk`, `rk` (Python-equal to the keys of `ls`, `rs`): the same
+    decision and score, the output row is `outRowK` -/
+def pairSpecK (a : MatcherArgs) (tok : Option (String → List Tok)) (sim : SimArg → SimArg → PyV)
+    (l r : Frame) (id lk rk : Cell) (ls rs : Row) : Option Row :=
+  let lv := valOf l a.lAttr ls
+  let rv := valOf r a.rAttr rs
+  if lv.isMissing || rv.isMissing then
+    if a.allowMissing then some (outRowK a l r id lk rk ls rs .missing) else none
+  else
+    let s := simValue tok sim lv rv
+    if compFn a.compOp s a.threshold then some (outRowK a l r id lk rk ls rs (scoreCell s)) else none
+
+/-- the candidate row `cr`: look up the two source rows by the candset's key columns (Python equality), then
+    `pairSpecK` with the candidate's own key cells; its `_id` is cell 0 -/
 def rowSpec (a : MatcherArgs) (tok : Option (String → List Tok)) (sim : SimArg → SimArg → PyV)
     (c l r : Frame) (cr : Row) : Option Row :=
   match srcRow l a.lKey (cr.cell (c.colIdx a.candLKey)), srcRow r a.rKey (cr.cell (c.colIdx a.candRKey)) with
-  | some ls, some rs => pairSpec a tok sim l r (cr.cell 0) ls rs
+  | some ls, some rs =>
+    pairSpecK a tok sim l r (cr.cell 0) (cr.cell (c.colIdx a.candLKey)) (cr.cell (c.colIdx a.candRKey)) ls rs
   | _, _ => none
 
-/-- with a duplicate-free key column, `srcRow` returns THE row carrying the key -/
-theorem srcRow_iff (f : Frame) (key : String) (hk : (f.col key).Nodup) (k : Cell) (s : Row) :
-    srcRow f key k = some s ↔ s ∈ f.rows ∧ keyOf f key s = k := by
+/-- key cells that ARE the tables' own: `outRowK` is `outRow` -/
+theorem outRowK_self (a : MatcherArgs) (l r : Frame) (id : Cell) (ls rs : Row) (score : Cell) :
+    outRowK a l r id (keyOf l a.lKey ls) (keyOf r a.rKey rs) ls rs score = outRow a l r id ls rs score := by
+  unfold outRowK outRow
+  simp only [ite_self]
+
+/-- key cells that ARE the tables' own: `pairSpecK` is `pairSpec` -/
+theorem pairSpecK_self (a : MatcherArgs) (tok : Option (String → List Tok)) (sim : SimArg → SimArg → PyV)
+    (l r : Frame) (id : Cell) (ls rs : Row) :
+    pairSpecK a tok sim l r id (keyOf l a.lKey ls) (keyOf r a.rKey rs) ls rs = pairSpec a tok sim l r id ls rs := by
+  unfold pairSpecK pairSpec
+  simp only [outRowK_self]
+
+/-- with output attributes the candidate's key cells do not show at all -/
+theorem pairSpecK_of_outAttrs (a : MatcherArgs) (tok : Option (String → List Tok)) (sim : SimArg → SimArg → PyV)
+    (l r : Frame) (id lk rk : Cell) (ls rs : Row) (h : hasOutAttrs a = true) :
+    pairSpecK a tok sim l r id lk rk ls rs = pairSpec a tok sim l r id ls rs := by
+  unfold pairSpecK pairSpec outRowK outRow
+  simp only [h, if_true]
+
+/-- in general: the same candidates are kept with the same score; without output attributes the two key cells of
+    the output row are the candidate's own -/
+theorem pairSpecK_eq_map (a : MatcherArgs) (tok : Option (String → List Tok)) (sim : SimArg → SimArg → PyV)
+    (l r : Frame) (id lk rk : Cell) (ls rs : Row) :
+    pairSpecK a tok sim l r id lk rk ls rs =
+      (pairSpec a tok sim l r id ls rs).map (fun row =>
+        if hasOutAttrs a then row else row.take 1 ++ [lk, rk] ++ row.drop 3) := by
+  by_cases h : hasOutAttrs a = true
+  · rw [pairSpecK_of_outAttrs _ _ _ _ _ _ _ _ _ _ h]
+    simp only [h, if_true]
+    cases pairSpec a tok sim l r id ls rs <;> rfl
+  · have hrow : ∀ score, outRowK a l r id lk rk ls rs score =
+        (outRow a l r id ls rs score).take 1 ++ [lk, rk] ++ (outRow a l r id ls rs score).drop 3 := by
+      intro score
+      unfold outRowK outRow withScore
+      simp only [h, if_false, Bool.false_eq_true]
+      split <;> rfl
+    unfold pairSpecK pairSpec
+    simp only [h, if_false, Bool.false_eq_true, hrow]
+    split
+    · split <;> rfl
+    · split <;> rfl
+
+/-- with a validated key column (pairwise Python-different cells), `srcRow` returns THE row whose key is
+    Python-equal to the probe -/
+theorem srcRow_iff (f : Frame) (key : String) (hk : PyDistinct (f.col key)) (k : Cell) (s : Row) :
+    srcRow f key k = some s ↔ s ∈ f.rows ∧ (keyOf f key s).pyEq k = true := by
   constructor
   · intro h
-    exact ⟨List.mem_of_find?_eq_some h, by simpa using List.find?_some h⟩
-  · rintro ⟨hs, rfl⟩
-    cases hf : srcRow f key (keyOf f key s) with
-    | none =>
-      have := List.find?_eq_none.1 hf s hs
-      simp at this
+    exact ⟨List.mem_of_find?_eq_some h, List.find?_some (p := fun s : Row => (keyOf f key s).pyEq k) h⟩
+  · rintro ⟨hs, he⟩
+    cases hf : srcRow f key k with
+    | none => exact absurd he (List.find?_eq_none.1 hf s hs)
     | some s' =>
       have hs' := List.mem_of_find?_eq_some hf
-      have hk' : keyOf f key s' = keyOf f key s := by simpa using List.find?_some hf
-      exact congrArg some (List.inj_on_of_nodup_map hk hs' hs hk')
+      have hk' : (keyOf f key s').pyEq k = true := List.find?_some (p := fun s : Row => (keyOf f key s).pyEq k) hf
+      have hkeys : keyOf f key s' = keyOf f key s :=
+        hk.unique (List.mem_map_of_mem (f := fun row : Row => row.cell (f.colIdx key)) hs')
+          (List.mem_map_of_mem (f := fun row : Row => row.cell (f.colIdx key)) hs) hk' he
+      exact congrArg some (List.inj_on_of_nodup_map hk.nodup hs' hs hkeys)
+
+/-- the lookup sees the probe only up to Python equality: `table_dict[1.0]` is `table_dict[1]` -/
+theorem srcRow_congr (f : Frame) (key : String) {k k' : Cell} (h : k.pyEq k' = true) :
+    srcRow f key k = srcRow f key k' := by
+  unfold srcRow
+  congr 1
+  funext s
+  exact Cell.pyEq_congr_right h _
 
 /-! ## The property -/
 
-/-- MAIN THEOREM.  For valid arguments, candidate keys present in the tables and a candset of fewer than 2⁴⁰ rows,
+/-- MAIN THEOREM.  For valid arguments, candidate keys present in the tables (up to Python equality: a `float64`
+    candset key column against `int64` table keys is fine) and a candset of fewer than 2⁴⁰ rows,
     `apply_matcher` returns a DataFrame whose rows are exactly the `rowSpec` images of the candidate rows, in candset
     order; its columns are the candset's if the candset is empty and `_id`, keys, output attributes, (`_sim_score`)
     otherwise.  Nothing else is assumed: any `sim`, any tokenization, any of the six operators, any `n_jobs`/cpu count,
     either side of the token-cache switch. -/
 theorem keeps_exactly (a : MatcherArgs) (t : Option TokObj) (toks : TokFn) (sim : SimArg → SimArg → PyV) (cpu : Int)
     (c l r : Frame) (hv : validateMatcher a t = .ok (c, l, r))
-    (hl : ∀ cr ∈ c.rows, cr.cell (c.colIdx a.candLKey) ∈ l.col a.lKey)
-    (hr : ∀ cr ∈ c.rows, cr.cell (c.colIdx a.candRKey) ∈ r.col a.rKey)
+    (hl : ∀ cr ∈ c.rows, PyMem (cr.cell (c.colIdx a.candLKey)) (l.col a.lKey))
+    (hr : ∀ cr ∈ c.rows, PyMem (cr.cell (c.colIdx a.candRKey)) (r.col a.rKey))
     (hlen : c.rows.length < 2 ^ 40)
     (hstr : t.isSome → StrColumn l a.lAttr ∧ StrColumn r a.rAttr) :
     ∃ fr, applyMatcher a t toks sim cpu = .ok fr ∧
@@ -139,18 +228,30 @@ theorem keeps_exactly (a : MatcherArgs) (t : Option TokObj) (toks : TokFn) (sim 
   rw [hrows]
   apply List.filterMap_congr
   intro cr _
-  exact matcherTableSpec_eq a t toks sim c l r hV.lKeyValid.nodup hV.rKeyValid.nodup cr
+  rw [matcherTableSpec_eq a t toks sim c l r hV.lKeyValid.1 hV.rKeyValid.1 cr]
+  rfl
 
-/-- Under the hypotheses of `keeps_exactly` both source rows of every candidate exist, so `rowSpec` is `pairSpec`
-    of THE left row and THE right row carrying the candidate's keys. -/
+/-- Under the hypotheses of `keeps_exactly` both source rows of every candidate exist, so `rowSpec` is `pairSpecK`
+    of THE left row and THE right row whose keys are Python-equal to the candidate's keys. -/
+theorem rowSpec_eq_pairSpecK (a : MatcherArgs) (tok : Option (String → List Tok)) (sim : SimArg → SimArg → PyV)
+    (c l r : Frame) (hlk : PyDistinct (l.col a.lKey)) (hrk : PyDistinct (r.col a.rKey)) (cr ls rs : Row)
+    (hls : ls ∈ l.rows) (hrs : rs ∈ r.rows)
+    (hkl : (keyOf l a.lKey ls).pyEq (cr.cell (c.colIdx a.candLKey)) = true)
+    (hkr : (keyOf r a.rKey rs).pyEq (cr.cell (c.colIdx a.candRKey)) = true) :
+    rowSpec a tok sim c l r cr =
+      pairSpecK a tok sim l r (cr.cell 0) (cr.cell (c.colIdx a.candLKey)) (cr.cell (c.colIdx a.candRKey)) ls rs := by
+  unfold rowSpec
+  rw [(srcRow_iff l a.lKey hlk _ ls).2 ⟨hls, hkl⟩, (srcRow_iff r a.rKey hrk _ rs).2 ⟨hrs, hkr⟩]
+
+/-- … and when the candidate's key cells are the tables' own, `pairSpec` of these two rows. -/
 theorem rowSpec_eq_pairSpec (a : MatcherArgs) (tok : Option (String → List Tok)) (sim : SimArg → SimArg → PyV)
-    (c l r : Frame) (hlk : (l.col a.lKey).Nodup) (hrk : (r.col a.rKey).Nodup) (cr ls rs : Row)
+    (c l r : Frame) (hlk : PyDistinct (l.col a.lKey)) (hrk : PyDistinct (r.col a.rKey)) (cr ls rs : Row)
     (hls : ls ∈ l.rows) (hrs : rs ∈ r.rows)
     (hkl : keyOf l a.lKey ls = cr.cell (c.colIdx a.candLKey))
     (hkr : keyOf r a.rKey rs = cr.cell (c.colIdx a.candRKey)) :
     rowSpec a tok sim c l r cr = pairSpec a tok sim l r (cr.cell 0) ls rs := by
-  unfold rowSpec
-  rw [(srcRow_iff l a.lKey hlk _ ls).2 ⟨hls, hkl⟩, (srcRow_iff r a.rKey hrk _ rs).2 ⟨hrs, hkr⟩]
+  rw [rowSpec_eq_pairSpecK a tok sim c l r hlk hrk cr ls rs hls hrs (Cell.pyEq_of_eq hkl) (Cell.pyEq_of_eq hkr),
+    ← hkl, ← hkr, pairSpecK_self]
 
 /-- Present values: the candidate is kept iff `sim_function(values) comp_op threshold` holds, and then its
     `_sim_score` is the value `sim_function` returned. -/
@@ -191,8 +292,8 @@ theorem score_is_last (a : MatcherArgs) (l r : Frame) (id : Cell) (ls rs : Row) 
     the `_id` column of the result is a subsequence of the candset's `_id` column. -/
 theorem order_and_ids_preserved (a : MatcherArgs) (t : Option TokObj) (toks : TokFn) (sim : SimArg → SimArg → PyV)
     (cpu : Int) (c l r : Frame) (hv : validateMatcher a t = .ok (c, l, r))
-    (hl : ∀ cr ∈ c.rows, cr.cell (c.colIdx a.candLKey) ∈ l.col a.lKey)
-    (hr : ∀ cr ∈ c.rows, cr.cell (c.colIdx a.candRKey) ∈ r.col a.rKey)
+    (hl : ∀ cr ∈ c.rows, PyMem (cr.cell (c.colIdx a.candLKey)) (l.col a.lKey))
+    (hr : ∀ cr ∈ c.rows, PyMem (cr.cell (c.colIdx a.candRKey)) (r.col a.rKey))
     (hlen : c.rows.length < 2 ^ 40)
     (hstr : t.isSome → StrColumn l a.lAttr ∧ StrColumn r a.rAttr) :
     ∃ fr, applyMatcher a t toks sim cpu = .ok fr ∧
@@ -211,8 +312,8 @@ theorem outRow_id (a : MatcherArgs) (l r : Frame) (id : Cell) (ls rs : Row) (sco
     different cpu counts) return the same rows in the same order under the same columns. -/
 theorem njobs_irrelevant (a : MatcherArgs) (t : Option TokObj) (toks : TokFn) (sim : SimArg → SimArg → PyV)
     (cpu cpu' nJobs' : Int) (c l r : Frame) (hv : validateMatcher a t = .ok (c, l, r))
-    (hl : ∀ cr ∈ c.rows, cr.cell (c.colIdx a.candLKey) ∈ l.col a.lKey)
-    (hr : ∀ cr ∈ c.rows, cr.cell (c.colIdx a.candRKey) ∈ r.col a.rKey)
+    (hl : ∀ cr ∈ c.rows, PyMem (cr.cell (c.colIdx a.candLKey)) (l.col a.lKey))
+    (hr : ∀ cr ∈ c.rows, PyMem (cr.cell (c.colIdx a.candRKey)) (r.col a.rKey))
     (hlen : c.rows.length < 2 ^ 40)
     (hstr : t.isSome → StrColumn l a.lAttr ∧ StrColumn r a.rAttr) :
     ∃ fr fr', applyMatcher a t toks sim cpu = .ok fr ∧
@@ -224,7 +325,8 @@ theorem njobs_irrelevant (a : MatcherArgs) (t : Option TokObj) (toks : TokFn) (s
 
 /-- The token cache is irrelevant.  `apply_matcher` pre-tokenizes both tables iff
     `len(ltable) + len(rtable) < 2 · len(candset)`; `keeps_exactly` holds on both sides of that switch (its
-    statement never mentions it).  At the level of the per-chunk worker `_apply_matcher_split`: with unique keys,
+    statement never mentions it).  At the level of the per-chunk worker `_apply_matcher_split`: with unique keys
+    (pairwise Python-different, as `validate_key_attr` guarantees),
     running with the cache the entry point builds (`useCache = true`) or without it gives the same result — rows
     or KeyError alike — provided, when a tokenizer is given, the two columns hold only strings and missing values
     (`StrCells`; a non-string makes the no-cache worker raise TypeError at the row referencing it, whereas with the
@@ -232,7 +334,7 @@ theorem njobs_irrelevant (a : MatcherArgs) (t : Option TokObj) (toks : TokFn) (s
 theorem cache_irrelevant (a : MatcherArgs) (candLIdx candRIdx : Nat) (lRows rRows : List Row)
     (lKeyIdx lAttrIdx rKeyIdx rAttrIdx : Nat) (o : OutCfg) (tok : Option (String → List Tok))
     (sim : SimArg → SimArg → PyV) (useCache : Bool) (chunk : List Row)
-    (hlk : (lRows.map (·.cell lKeyIdx)).Nodup) (hrk : (rRows.map (·.cell rKeyIdx)).Nodup)
+    (hlk : PyDistinct (lRows.map (·.cell lKeyIdx))) (hrk : PyDistinct (rRows.map (·.cell rKeyIdx)))
     (hstr : tok.isSome → StrCells lRows lAttrIdx ∧ StrCells rRows rAttrIdx) :
     applyMatcherSplit a candLIdx candRIdx lRows rRows lKeyIdx lAttrIdx rKeyIdx rAttrIdx o tok sim
         (match (generalizing := false) tok, useCache with
@@ -249,8 +351,8 @@ theorem cache_irrelevant_tables (a : MatcherArgs) (t : Option TokObj) (toks : To
     (cpu : Int) (c l r : Frame) (small : Bool)
     (_hswitch : small = decide (l.rows.length + r.rows.length < c.rows.length * 2))
     (hv : validateMatcher a t = .ok (c, l, r))
-    (hl : ∀ cr ∈ c.rows, cr.cell (c.colIdx a.candLKey) ∈ l.col a.lKey)
-    (hr : ∀ cr ∈ c.rows, cr.cell (c.colIdx a.candRKey) ∈ r.col a.rKey)
+    (hl : ∀ cr ∈ c.rows, PyMem (cr.cell (c.colIdx a.candLKey)) (l.col a.lKey))
+    (hr : ∀ cr ∈ c.rows, PyMem (cr.cell (c.colIdx a.candRKey)) (r.col a.rKey))
     (hlen : c.rows.length < 2 ^ 40)
     (hstr : t.isSome → StrColumn l a.lAttr ∧ StrColumn r a.rAttr) :
     ∃ fr, applyMatcher a t toks sim cpu = .ok fr ∧
@@ -289,7 +391,7 @@ def exSim : SimArg → SimArg → PyV := fun x y => if x = y then .int 1 else .i
 
 /-- the hypotheses of `keeps_exactly` are satisfiable … -/
 example : validateMatcher exArgs none = .ok (exC, exL, exR) := by decide
-example : ∀ cr ∈ exC.rows, cr.cell (exC.colIdx exArgs.candLKey) ∈ exL.col exArgs.lKey := by decide
+example : ∀ cr ∈ exC.rows, PyMem (cr.cell (exC.colIdx exArgs.candLKey)) (exL.col exArgs.lKey) := by decide
 /-- … and the specification is not trivial: the first candidate (equal names) is kept with score 1, the second
     (different names) is dropped, the third (missing left value) is dropped unless allow_missing -/
 example : exC.rows.filterMap (rowSpec exArgs none exSim exC exL exR) = [[.int 0, .int 1, .int 7, .int 1]] := by decide
